@@ -26,3 +26,7 @@ package memfs
 //@ func (*MemFS).Rename
 //@   at call nParent.addChild assert[C06] callrecv.children[arg0] == result("vfs.searchNode#1", 1)
 //@   at call oParent.removeChild assert[C06] callrecv.children[arg0] == result("vfs.searchNode#0", 1)
+
+// open(2) with O_CREAT|O_EXCL succeeds only by creating the file (also under interference).
+//@ func (*MemFS).OpenFile
+//@   ensures[C06,C01] r1 == nil && flag&os.O_CREATE != 0 && flag&os.O_EXCL != 0 ==> called(vfs.createFile)
